@@ -222,4 +222,38 @@ func runC17(c *Ctx) {
 	}
 	ruleWaiterRemoved(c, r6)
 	c.R.Floor(r6, 10)
+
+	const r7 = "C17.R7 goroutines that Close waits for never block on the peer alone"
+	// Close() waits for the invocation goroutines; a plain send to the peer's queue blocks forever once the
+	// connection is gone, so every such send must have the client's context as an alternative
+	nSend := 0
+	for _, fn := range c.P.FuncsIn("client") {
+		name := ir.ShortName(fn)
+		if !strings.HasPrefix(name, cl+"runHandleInvocation$") {
+			continue
+		}
+		for _, in := range ir.Instrs(fn) {
+			d := ir.InstrDesc(in)
+			switch {
+			case strings.HasPrefix(d, "send:call:invoke:wamp.Peer.Send["):
+				nSend++
+				c.R.Bad(r7, name, "send to the peer has the client's context as an alternative: "+d, c.pos(in),
+					"blocking send to the peer in an invocation goroutine: after a disconnect with this send pending the goroutine never ends and Close() waits for it forever")
+			case strings.HasPrefix(d, "select{send:call:invoke:wamp.Peer.Send["):
+				nSend++
+				c.R.Check(strings.Contains(d, ";recv:call:invoke:context.Context.Done[^c.ctx]()") || strings.Contains(d, ";recv:call:client.(*Client).Done("), r7, name,
+					"send to the peer has the client's context as an alternative: "+d, c.pos(in), "the select offers no way out when the client is done")
+			}
+		}
+	}
+	c.R.Check(nSend >= 5, r7, "client", "peer sends of the invocation goroutines enumerated", "-", fmt.Sprintf("found %d", nSend))
+	c.R.Floor(r7, 6)
+
+	const r8 = "C17.R8 waiting for a reply is bounded by one timer"
+	for _, w := range []string{"waitForReply", "waitForReplyWithCancel"} {
+		c.Reach(r8, cl+w, "no timer is (re)armed once waiting on it has begun", ReachSpec{
+			From: `^select\{recv:%c\.awaitingReply\[%id\],ok#0\.msgs;recv:call:time\.`, Target: `^call:time\.(NewTimer|After|AfterFunc)\(|^call:\(\*time\.Timer\)\.Reset\(`, Want: false})
+	}
+	c.Has(r8, cl+"waitForReplyWithCancel", "after CANCEL the wait for ERROR is bounded by the response timeout", `^select\{recv:%c\.awaitingReply\[%id\],ok#0\.msgs;recv:call:time\.NewTimer\(%c\.responseTimeout\)\.C\}$`, 1)
+	c.R.Floor(r8, 3)
 }
